@@ -28,13 +28,14 @@ func (it Item) bytes() []byte {
 }
 
 type Case struct {
-	Mode  int    `json:"mode"` // 0 rune, 1 grapheme
-	Grid  bool   `json:"grid"`
-	W     int    `json:"w"`
-	H     int    `json:"h"`
-	Chunk int    `json:"chunk"` // 0 whole, 1 per item, 2 bytewise, >=3 random with this seed
-	Items []Item `json:"items"`
-	Note  string `json:"note,omitempty"`
+	Mode        int    `json:"mode"` // 0 rune, 1 grapheme
+	Grid        bool   `json:"grid"`
+	W           int    `json:"w"`
+	H           int    `json:"h"`
+	Chunk       int    `json:"chunk"` // 0 whole, 1 per item, 2 bytewise, >=3 random with this seed
+	Items       []Item `json:"items"`
+	Note        string `json:"note,omitempty"`
+	ShortWrites int    `json:"short_writes,omitempty"` // >0: the backend accepts 1..ShortWrites bytes per Write call
 }
 
 func (c Case) String() string {
@@ -205,7 +206,8 @@ func runCase(c *Case, d *driver, opts runOpts) (res caseResult) {
 		return
 	}
 	im.fe.probeLock = opts.probeLock
-	useModel := !opts.noModel && d != nil
+	im.be.shortCycle = c.ShortWrites
+	useModel := !opts.noModel && d != nil && !(c.Mode == 1 && c.Grid)
 	step := 0
 	addF := func(f finding) { f.Grid = c.Grid; res.Findings = append(res.Findings, f) }
 
@@ -417,25 +419,56 @@ func knownFindingMonitors(pre, post *te.VerifSnap, im *impl, evFrom int, step in
 		case "c10", "c12", "e68": // LF, FF, IND on the bottom margin of a region that starts at row 0
 			scrolledOff = s.Top == 0 && s.CY == s.Bot && s.Bot > 0
 		}
-		if strings.HasPrefix(tags, "[0.83") && s.Top == 0 && s.Bot > 0 { // SU n, n > 0
+		if tags == "[0.83" && s.Top == 0 && s.Bot > 0 { // SU n, n > 0
 			scrolledOff = rowString(cellsOfVerif(pre.Screens[0].Rows[0].Cells)) != rowString(cellsOfVerif(post.Screens[0].Rows[0].Cells)) ||
 				rowString(cellsOfVerif(pre.Screens[0].Rows[1].Cells)) != rowString(cellsOfVerif(post.Screens[0].Rows[1].Cells))
 		}
+		want := 0
 		if scrolledOff {
-			announced := false
-			for _, e := range im.fe.events[evFrom:] {
-				if e.kind == "l" {
-					announced = true
+			want = 1
+		}
+		if tags == "[0.83" && s.Top == 0 && len(stepBytes) > 2 { // SU n
+			n, digits := 0, false
+			for _, ch := range stepBytes[2:] {
+				if ch >= '0' && ch <= '9' {
+					digits = true
+					if n < 1<<20 {
+						n = n*10 + int(ch-'0')
+					}
+				} else {
+					break
 				}
 			}
-			if !announced {
+			if !digits {
+				n = 1
+			}
+			if h := s.Bot - s.Top + 1; n > h {
+				n = h
+			}
+			want = n
+			scrolledOff = n > 0
+		}
+		if scrolledOff {
+			got, calls := 0, 0
+			for _, e := range im.fe.events[evFrom:] {
+				if e.kind == "l" {
+					var k int
+					fmt.Sscanf(e.s, "l:%d", &k)
+					got += k
+					calls++
+				}
+			}
+			if calls == 0 {
 				*out = append(*out, finding{Step: step, Kind: "monitor", Prop: "C10", Clause: "scroll-lines", Tags: tags,
 					Detail: "a row of the main screen scrolled off the top without a ScrollLines notification"})
+			} else if got != want {
+				*out = append(*out, finding{Step: step, Kind: "monitor", Prop: "C10", Clause: "scroll-lines-count", Tags: tags,
+					Detail: fmt.Sprintf("%d row(s) left the main screen through the top, ScrollLines announced %d", want, got)})
 			}
 		}
 	}
 	// C07: an SGR sequence with more parameters than the parser stores
-	if strings.HasPrefix(tags, "[0.109") && len(stepBytes) > 0 && stepBytes[len(stepBytes)-1] == 'm' {
+	if tags == "[0.109" && len(stepBytes) > 0 && stepBytes[len(stepBytes)-1] == 'm' {
 		if n := strings.Count(string(stepBytes), ";") + 1; n > 32 {
 			*out = append(*out, finding{Step: step, Kind: "monitor", Prop: "C07", Clause: "sgr-param-cap", Tags: tags,
 				Detail: fmt.Sprintf("SGR sequence with %d parameters: only the first 32 are applied", n)})
